@@ -6,6 +6,7 @@ PROPERTY = "C06"
 
 def tasks(tier):
     return (contract_tasks("contracts.scenario_min", "C06") + contract_tasks("contracts.connect", "C06", tier=tier)
+            + contract_tasks("contracts.groups", "C11", tier=tier) + lemma_tasks("contracts.groups", "C11")
             + contract_tasks("contracts.tiered_time", "C08", names=["IntervalAdd", "IntervalLt"])
             + lemma_tasks("contracts.tiered_time", "C08", names=["CompAssociative", "CompMonotoneRight", "LtTransitive"])
             + other_tasks("contracts.closure", "C06", "bounded"))
